@@ -35,7 +35,7 @@ Perturbations ==
              : i \in 1..(Len(seq) - 1) }
     \cup { [kind |-> "retarget-model",
             muts |-> ReplaceAt(seq, i, [seq[i] EXCEPT !.m = OtherModel(@)])]
-             : i \in { j \in 1..Len(seq) : seq[j].k \in {"Add", "Chg", "Del", "Meta"} } }
+             : i \in { j \in 1..Len(seq) : seq[j].k \in {"Add", "Chg", "Del", "Meta", "DelM"} } }
     \cup { [kind |-> "rename-field",
             muts |-> ReplaceAt(seq, i, [seq[i] EXCEPT !.f = OtherField(@)])]
              : i \in { j \in 1..Len(seq) : seq[j].k \in {"Add", "Chg", "Del"} } }
